@@ -31,4 +31,8 @@ VARIANTS = [
     dict(name='benign-rename-count', expect='silent', edits=[
         dict(file=LH, old="    for warning_type, count in warning_count.items():\n        type_count = warning_count[warning_type]\n        if warning_type in specs:\n            # Subtract at least 0, and at most the number of warnings counted so\n            # the resulting total is guaranteed to be between 0 and `count`.\n            total -= max(0, min(count, specs[warning_type]))\n        elif warning_type in deduct_all:\n            total -= count",
              new="    for warning_type, seen in warning_count.items():\n        type_count = warning_count[warning_type]\n        if warning_type in specs:\n            total -= max(0, min(seen, specs[warning_type]))\n        elif warning_type in deduct_all:\n            total -= seen")]),
+    dict(name='benign handle without the two locals', expect='silent', edits=[
+        dict(file='vermouth/log_helpers.py', old="        record_level = record.levelno\n        record_type = getattr(record, self.type_attr, self.default_type)\n        self.counts[record_level][record_type] += 1", new="        self.counts[record.levelno][getattr(record, self.type_attr, self.default_type)] += 1")]),
+    dict(name='handle files everything above WARNING under ERROR', expect='fire', key='MPT-count|handle|table', edits=[
+        dict(file='vermouth/log_helpers.py', old="        record_level = record.levelno\n", new="        record_level = record.levelno if record.levelno <= 30 else max(record.levelno, 40)\n")]),
 ]
